@@ -36,6 +36,17 @@ __CPROVER_ensures(!__CPROVER_return_value || (int64_t)(self->num_symbols_ / 64) 
 __CPROVER_assigns(buffer->pos_, self->num_symbols_, self->probability_table_, self->ans_->lut_table_.size, self->ans_->probability_table_.size,
                   __CPROVER_object_whole(self->ans_->lut_table_.data), __CPROVER_object_whole(self->ans_->probability_table_.data));
 
+/* zero-run token of the probability table: a run that would end behind the last symbol is refused and nothing is written; otherwise exactly the entries
+ * i .. i+offset are zeroed, every other entry keeps its value, nothing outside the table is touched, and i moves to the last entry of the run */
+bool RSD_Create_zero_run(struct RSD *self, uint32_t *i_ref, uint8_t prob_data)
+__CPROVER_requires(__CPROVER_is_fresh(self, sizeof(struct RSD)) && __CPROVER_is_fresh(i_ref, 4) && self->num_symbols_ >= 1 && self->num_symbols_ <= RD_NSYM_MAX && *i_ref < self->num_symbols_ && \
+                   self->probability_table_.size == self->num_symbols_ && __CPROVER_is_fresh(self->probability_table_.data, (size_t)self->num_symbols_ * 4))
+__CPROVER_ensures(__CPROVER_return_value == (__CPROVER_old(*i_ref) + (uint32_t)(prob_data >> 2) < self->num_symbols_))
+__CPROVER_ensures(__CPROVER_return_value ? *i_ref == __CPROVER_old(*i_ref) + (uint32_t)(prob_data >> 2) : *i_ref == __CPROVER_old(*i_ref))
+__CPROVER_ensures(ghost_sym >= self->num_symbols_ || self->probability_table_.data[ghost_sym] == \
+     ((__CPROVER_return_value && ghost_sym >= __CPROVER_old(*i_ref) && ghost_sym <= __CPROVER_old(*i_ref) + (uint32_t)(prob_data >> 2)) ? 0u : __CPROVER_old(self->probability_table_.data[ghost_sym < self->num_symbols_ ? ghost_sym : 0])))
+__CPROVER_assigns(*i_ref, __CPROVER_object_whole(self->probability_table_.data));
+
 /* DecodeRawSymbols: the stored bit length selects exactly the decoder instantiation of that bit length for 1..18 and is refused otherwise (C05/C08 raw.limit) */
 bool DecodeRawSymbols(uint32_t num_values, struct DecoderBuffer *src_buffer, uint32_t *out_values)
 __CPROVER_requires(DB_FRESH(src_buffer) && ghost_dispatched_bits == 0)
@@ -99,6 +110,7 @@ __CPROVER_assigns(src_buffer->pos_, ghost_bits_mode, ghost_bits_read, __CPROVER_
 void h_enf_ComputeRAnsPrecision(void) { AGHOSTS(); int b; ComputeRAnsPrecisionFromUniqueSymbolsBitLength(b); HARNESS_END(); }
 void h_enf_RSD_Create(void) { AGHOSTS(); struct RSD *d; struct DecoderBuffer *b; RSD_Create(d, b); HARNESS_END(); }
 void h_enf_DecodeRawSymbols(void) { AGHOSTS(); ghost_dispatched_bits = 0; uint32_t n; struct DecoderBuffer *b; uint32_t *o; DecodeRawSymbols(n, b, o); HARNESS_END(); }
+void h_enf_RSD_Create_zero_run(void) { AGHOSTS(); struct RSD *d; uint32_t *i; uint8_t p; RSD_Create_zero_run(d, i, p); HARNESS_END(); }
 void h_enf_DecodeRawSymbolsInternal(void) { AGHOSTS(); uint32_t n; struct DecoderBuffer *b; uint32_t *o; DecodeRawSymbolsInternal(n, b, o); HARNESS_END(); }
 void h_enf_DecodeTaggedSymbols(void) { AGHOSTS(); ghost_bits_mode = 0; ghost_bits_read = 0; uint32_t n; int c; struct DecoderBuffer *b; uint32_t *o; DecodeTaggedSymbols(n, c, b, o); HARNESS_END(); }
 /* symbols.StartDecoding (C08/C02/C18/C06): RAnsSymbolDecoder::StartDecoding on ARBITRARY bytes, any length, both version paths: the payload size declared
